@@ -151,11 +151,11 @@ theorem cf_pages_drain_aux : ∀ (N : Nat) (s : State) (t : T) (p : PagesSt) (f 
   | 0, _, _, _, _, _, _, _, _, hN => by omega
   | N + 1, s, t, p, f, h, hp, hfin, hwe, hN => by
     have hfu := cf_pagesResume_fuel h hp
-    have hsec := cf_pages_section (s.trie.size + p.prefixes.length + 2) s p.prefixes p.start p.pending p.pages f hfin hwe
-    have hnorm : pagesResume (s.trie.size + p.prefixes.length + 2) s ⟨p.prefixes, p.start, p.pending, none, p.pages⟩ =
-        pagesResume (s.trie.size + p.prefixes.length + 2) s p := (pagesResume_norm _ s p).symm
+    have hsec := cf_pages_section ((s.trie.size + 1) * (p.prefixes.length + 1)) s p.prefixes p.start p.pending p.pages f hfin hwe
+    have hnorm : pagesResume ((s.trie.size + 1) * (p.prefixes.length + 1)) s ⟨p.prefixes, p.start, p.pending, none, p.pages⟩ =
+        pagesResume ((s.trie.size + 1) * (p.prefixes.length + 1)) s p := (pagesResume_norm _ s p).symm
     rw [hnorm] at hsec
-    rcases hr : pagesResume (s.trie.size + p.prefixes.length + 2) s p with ⟨p1, o⟩
+    rcases hr : pagesResume ((s.trie.size + 1) * (p.prefixes.length + 1)) s p with ⟨p1, o⟩
     rw [hr] at hsec hfu
     simp only at hsec hfu
     have hd : cf_drain (N + 1) s (.pages p) =
@@ -171,15 +171,15 @@ theorem cf_pages_drain_aux : ∀ (N : Nat) (s : State) (t : T) (p : PagesSt) (f 
     · subst h1; rfl
     · subst h1; exact h2.symm
 
-/-- **(2) the page query drained on a fixed index = the atomic request**, for prefixes that are well formed and
-    pairwise not prefixes of one another (otherwise a section of the MODEL may run out of the fuel
-    `CoSt.resume` grants it: `cf_pages_fuel_insufficient_*`, where the drained machine answers `.err (.other "fuel")`
-    and the atomic request `.pages []`) -/
+/-- **(2) the page query drained on a fixed index = the atomic request**, for EVERY well-formed prefix list
+    (equal prefixes, prefixes below one another, … included: with the old constant of `CoSt.resume` a section of
+    the model could run out of fuel there, `cf_old_pages_fuel_insufficient_*`, and the drained machine answered
+    `.err (.other "fuel")` where the atomic request answers `.pages []`; see `cf_pages_drain_dup`) -/
 theorem cf_pages_drain {s : State} {t : T} (h : Shape s t) (ps : List Bytes) (hwf : ∀ pf ∈ ps, lruIter pf ≠ [])
-    (hap : (ps.map lruIter).Pairwise cf_Apart) (N : Nat) (hN : ps.length * (s.trie.size + 2) < N) :
+    (N : Nat) (hN : ps.length * (s.trie.size + 2) < N) :
     cf_drain N s (.pages { prefixes := ps }) = s.ask (.pages ps) := by
   rw [← cf_pagesSpec_init]
-  exact cf_pages_drain_aux N s t { prefixes := ps } 0 h (cf_PagesInv.init s t ps hwf hap) trivial
+  exact cf_pages_drain_aux N s t { prefixes := ps } 0 h (cf_PagesInv.init s t ps hwf) trivial
     (weFin_of_shape h none ps hwf) (by simpa [cf_pB] using hN)
 
 /-! ## the network query drained on a fixed index -/
@@ -556,34 +556,43 @@ theorem cf_net_drain {s : State} {t : T} (h : Shape s t) (hg : cf_SumOk s) (out 
 
 /-- **(2) both generators with recomputed fuel: drained = atomic** for all sufficiently many `next()` -/
 theorem cf_drain_atomic {s : State} {t : T} (h : Shape s t) (hg : cf_SumOk s) (ps : List Bytes)
-    (hwf : ∀ pf ∈ ps, lruIter pf ≠ []) (hap : (ps.map lruIter).Pairwise cf_Apart) (out auto : Bool) :
+    (hwf : ∀ pf ∈ ps, lruIter pf ≠ []) (out auto : Bool) :
     ∃ N0, ∀ N, N0 ≤ N →
       cf_drain N s (.pages { prefixes := ps }) = s.ask (.pages ps) ∧
       cf_drain N s (.net { out := out, auto := auto }) = s.ask (.network out auto false) :=
   ⟨ps.length * (s.trie.size + 2) + (s.trie.size + 2 + s.trie.size * (s.links.size + 2)) + 1, fun N hN =>
-    ⟨cf_pages_drain h ps hwf hap N (by omega), cf_net_drain h hg out auto N (by omega)⟩⟩
+    ⟨cf_pages_drain h ps hwf N (by omega), cf_net_drain h hg out auto N (by omega)⟩⟩
 
 /-- the same in every state reached from a fresh index by write requests (without `clear`, for the shape theorem used) -/
 theorem cf_drain_atomic_run (cfg : Config) (dflt : Rule) (rules : List (Bytes × Rule)) (ops : List Op)
     (hop : ∀ op ∈ ops, ∀ d rs, op ≠ .clear d rs) (ps : List Bytes)
-    (hwf : ∀ pf ∈ ps, lruIter pf ≠ []) (hap : (ps.map lruIter).Pairwise cf_Apart) (out auto : Bool) :
+    (hwf : ∀ pf ∈ ps, lruIter pf ≠ []) (out auto : Bool) :
     ∃ N0, ∀ N, N0 ≤ N →
       cf_drain N ((State.fresh cfg dflt rules []).1.run ops) (.pages { prefixes := ps }) =
         ((State.fresh cfg dflt rules []).1.run ops).ask (.pages ps) ∧
       cf_drain N ((State.fresh cfg dflt rules []).1.run ops) (.net { out := out, auto := auto }) =
         ((State.fresh cfg dflt rules []).1.run ops).ask (.network out auto false) := by
   obtain ⟨t, h⟩ := shape_run cfg dflt rules ops hop
-  exact cf_drain_atomic h (cf_sumOk_reachable cfg dflt rules ops) ps hwf hap out auto
+  exact cf_drain_atomic h (cf_sumOk_reachable cfg dflt rules ops) ps hwf out auto
 
 set_option maxRecDepth 1000000 in
-/-- the drained page query of the counterexample index answers "fuel", the atomic request `[]` -/
-theorem cf_pages_drain_counterexample :
-    cf_drain 100 (cf_idx "a|b|c|") (.pages { prefixes := [cf_b "a|", cf_b "a|"] }) = .err (.other "fuel") ∧
+/-- the index and the request (the same prefix twice) on which the drained page query answered "fuel" with the old
+    constant (`cf_old_pages_fuel_insufficient_dup`): the drained machine now answers what the atomic request answers,
+    `[]` (kernel-checked instance of `cf_pages_drain`) -/
+theorem cf_pages_drain_dup :
+    cf_drain 100 (cf_idx "a|b|c|") (.pages { prefixes := [cf_b "a|", cf_b "a|"] }) = .pages [] ∧
     (cf_idx "a|b|c|").ask (.pages [cf_b "a|", cf_b "a|"]) = .pages [] := by decide +kernel
+
+set_option maxRecDepth 1000000 in
+/-- the same for the nested prefixes of `cf_old_pages_fuel_insufficient_nested` -/
+theorem cf_pages_drain_nested :
+    cf_drain 100 (cf_idx "a|b|c|d|") (.pages { prefixes := [cf_b "a|", cf_b "a|b|"] }) = .pages [] ∧
+    (cf_idx "a|b|c|d|").ask (.pages [cf_b "a|", cf_b "a|b|"]) = .pages [] := by decide +kernel
 
 #print axioms cf_pages_drain
 #print axioms cf_net_drain
 #print axioms cf_drain_atomic_run
-#print axioms cf_pages_drain_counterexample
+#print axioms cf_pages_drain_dup
+#print axioms cf_pages_drain_nested
 
 end Traph
